@@ -139,6 +139,11 @@ def run_check(prop, tier, seed):
         vac = set(l for l in (s.twin_seen - s.twin_sat) if s.labels.get(l, {}).get("sat", 0) == 0)
         if vac and s.exhaustive and s.status.get("ok", 0) > 0:
             harness_errors.append("vacuous oracle (falsified twin never refuted) in %s: %s" % (s.harness, sorted(vac)))
+        for c in s.unconfirmed:
+            if c["kind"] == "exception":
+                harness_errors.append("exception on a symbolic path that the unmodified code does not raise (engine model wrong?) "
+                                      "in %s: %s %s" % (s.harness, c.get("detail"), json.dumps(explore._jsonable(c["inputs"]))[:300]))
+                break
         if s.status.get("ok", 0) == 0 and s.status.get("exception", 0) == 0:
             harness_errors.append("harness %s completed no path: %s %s" % (s.harness, s.status, s.unsupported))
 
